@@ -22,10 +22,10 @@ class C04(Prop):
     campaigns = {
         "quick": [("faultfree", 4000, 40), ("faults", 12000, 60), ("enumerated", 600, 60), ("the_enumerated", 1500, 60),
                   ("known:disjunction+for_all", 320, 30), ("known:disjunction+flatten", 320, 30),
-                  ("known:disjunction+nested_query", 320, 30), ("known:predicate_with_repeated_variable", 320, 30), ("known:disjunction_over_different_variables", 320, 30), ("known:disjunction_of_multi_variable_conjunction", 320, 30), ("rules", 3000, 40), ("known:rule_tree_with_alternative_or_next", 320, 40), ("known:several_kwargs_form_variables", 320, 30)],
+                  ("known:disjunction+nested_query", 320, 30), ("known:predicate_with_repeated_variable", 320, 30), ("known:disjunction_over_different_variables", 320, 30), ("known:disjunction_of_multi_variable_conjunction", 320, 30), ("rules", 3000, 40), ("known:rule_tree_with_alternative_or_next", 320, 40), ("known:several_kwargs_form_variables", 320, 30), ("known:falsy_operand", 600, 30)],
         "thorough": [("faultfree", 60000, 600), ("faults", 200000, 1500), ("enumerated", 12000, 1500), ("the_enumerated", 40000, 1200),
                      ("known:disjunction+for_all", 4000, 300), ("known:disjunction+flatten", 4000, 300),
-                     ("known:disjunction+nested_query", 8000, 300), ("known:predicate_with_repeated_variable", 4000, 300), ("known:disjunction_over_different_variables", 20000, 300), ("known:disjunction_of_multi_variable_conjunction", 20000, 300), ("rules", 60000, 600), ("known:rule_tree_with_alternative_or_next", 6000, 400), ("known:several_kwargs_form_variables", 40000, 400)],
+                     ("known:disjunction+nested_query", 8000, 300), ("known:predicate_with_repeated_variable", 4000, 300), ("known:disjunction_over_different_variables", 20000, 300), ("known:disjunction_of_multi_variable_conjunction", 20000, 300), ("rules", 60000, 600), ("known:rule_tree_with_alternative_or_next", 6000, 400), ("known:several_kwargs_form_variables", 40000, 400), ("known:falsy_operand", 40000, 400)],
     }
     chunk = 40
     rule = ("seeded pools of 1-3 `an` queries (+ `the` variants) over shared variables with explicit domains; "
@@ -56,6 +56,7 @@ class C04(Prop):
         'exactly one solution' is frequent, and often a top-level disjunction over one variable set (the shape whose
         de-duplication state matters after an abort)."""
         cfg = G.gen_config(rng, tier, all_selected=True, n_queries=1)
+        cfg["truthy_only"] = True
         cfg["vocab"] = [v for v in cfg["vocab"] if v not in ("forall", "kw", "nest", "flat")]
         cfg["kinds"] = ["list", "list", "gen"]
         cfg["dups"] = False
@@ -82,7 +83,13 @@ class C04(Prop):
         cfg = G.gen_config(rng, tier)
         cfg["kinds"] = ["list", "list", "tuple", "gen", "iterobj"]
         cfg["allow_nodom"] = True
-        region = campaign.split(":", 1)[1] if campaign.startswith("known:") else None
+        # falsy attribute values (0, []) are dropped inside comparison operands by the pinned engine (the pure-
+        # semantics defect of property C19) in a way that also depends on cache and de-duplication state; they are
+        # kept in their own campaign
+        cfg["truthy_only"] = campaign != "known:falsy_operand"
+        if campaign == "known:falsy_operand":
+            cfg["alphabet"] = "falsy"
+        region = campaign.split(":", 1)[1] if campaign.startswith("known:") and campaign != "known:falsy_operand" else None
         if campaign in ("rules", "known:rule_tree_with_alternative_or_next"):
             cfg["vocab"] = [v for v in cfg["vocab"] if v not in ("forall", "kw", "nest", "flat")]
             want = set() if campaign == "rules" else {"rule_tree_with_alternative_or_next"}
